@@ -1326,6 +1326,125 @@ theorem step_cfg (s : State) (op : Op) : (step s op).1.cfg = s.cfg := by
   | moveOut => simp only [step, stepMoveOut]; split <;> rfl
   | swapobj => simp only [step, stepSwapobj]; split <;> rfl
 
+macro "fin_tac" : tactic => `(tactic| (refine ⟨?_, ?_, ?_, ?_, ?_⟩ <;> first | rfl | trivial | exact ⟨_, rfl⟩))
+
+theorem rsAlloc_fields (s : State) (n : Nat) :
+    (rsAlloc s n).frames = s.frames ∧ (rsAlloc s n).nextFrame = s.nextFrame ∧
+    (rsAlloc s n).born = s.born ∧ (rsAlloc s n).died = s.died := by
+  unfold rsAlloc
+  split <;> exact ⟨rfl, rfl, rfl, rfl⟩
+
+/-- every successful `alloc` ends by recording the frame: it is the last live frame, the extra object (if any) was
+constructed for it, and `inventory` points at that object — before any line of the coroutine body can run -/
+theorem alloc_result (s : State) (k sz id : Nat) (blk : Blk) (hres : (step s (Op.alloc k sz)).2 = Res.alloc id blk) :
+    id = s.nextFrame ∧ (step s (Op.alloc k sz)).1.inventory = some id ∧
+    (step s (Op.alloc k sz)).1.born = s.born ++ [id] ∧ (step s (Op.alloc k sz)).1.died = s.died ∧
+    ∃ p, (step s (Op.alloc k sz)).1.frames = s.frames ++ [⟨id, blk, sz, p⟩] := by
+  simp only [step, stepAlloc] at hres ⊢
+  cases hp : s.cfg.pol with
+  | default =>
+    simp only [hp] at hres ⊢
+    injection hres with h1 h2; subst h1; subst h2
+    fin_tac
+  | reusable =>
+    simp only [hp] at hres ⊢
+    injection hres with h1 h2; subst h1; subst h2
+    obtain ⟨r1, r2, r3, r4⟩ := rsAlloc_fields s (need s.cfg sz)
+    simp only [allocReusable, addFrame, r1, r2, r3, r4]
+    fin_tac
+  | mtsafe =>
+    simp only [hp] at hres ⊢
+    injection hres with h1 h2; subst h1; subst h2
+    obtain ⟨r1, r2, r3, r4⟩ := rsAlloc_fields s (need s.cfg sz)
+    simp only [allocMtsafe, addFrame]
+    by_cases hb : s.busy = true
+    · simp only [hb, if_true]; fin_tac
+    · simp only [hb, r1, r2, r3, r4]; fin_tac
+  | stack i =>
+    simp only [hp] at hres ⊢
+    cases hk : s.objs[k]? with
+    | none => simp only [hk] at hres; cases hres
+    | some asz =>
+      simp only [hk] at hres ⊢
+      injection hres with h1 h2; subst h1; subst h2
+      simp only [allocStack, addFrame]
+      by_cases hf : need s.cfg sz ≤ asz
+      · simp only [hf, if_true]; fin_tac
+      · simp only [hf, if_false]; fin_tac
+  | placement b =>
+    simp only [hp] at hres ⊢
+    injection hres with h1 h2; subst h1; subst h2
+    fin_tac
+  | buffer i =>
+    simp only [hp] at hres ⊢
+    injection hres with h1 h2; subst h1; subst h2
+    obtain ⟨f1, f2, f3, f4, _⟩ := bufResized_fields s i sz
+    simp only [allocBuffer, addFrame, f1, f2, f3, f4]
+    fin_tac
+  | static sp a =>
+    simp only [hp] at hres ⊢
+    split at hres
+    · cases hres
+    · rename_i hrej
+      simp only [hrej]
+      injection hres with h1 h2; subst h1; subst h2
+      simp only [allocStatic, addFrame]
+      by_cases hf : need s.cfg sz ≤ sp
+      · simp only [hf, if_true]; fin_tac
+      · simp only [hf, if_false]; fin_tac
+
+theorem stepFree_frames {s : State} {id : Nat} {f : Frame} (hfind : s.frames.find? (fun g => g.id == id) = some f) :
+    (stepFree s id).1.frames = s.frames.erase f ∧ (stepFree s id).1.cfg = s.cfg := by
+  unfold stepFree release
+  simp only [hfind]
+  split
+  · split <;> exact ⟨rfl, rfl⟩
+  · split <;> exact ⟨rfl, rfl⟩
+
+theorem mem_sameFramesAs {t s : State} (h : Mem t) : Mem (t.sameFramesAs s) :=
+  ⟨h.once, h.noleak, h.fits, h.excl, h.priv_heap, h.shared_blk, h.ptr_live, h.ptr_none, h.vsize_le, h.busy_iff,
+    h.optr_live, h.optr_none⟩
+
+theorem inv_stepAllocThrow {s : State} (hc : CfgOK s.cfg) (h : Inv s) (k sz : Nat)
+    (hok : (stepAllocThrow s k sz).1.ok = true) : Inv (stepAllocThrow s k sz).1 := by
+  unfold stepAllocThrow at hok ⊢
+  cases hres : (stepAlloc s k sz).2 with
+  | alloc id blk =>
+    simp only [hres] at hok ⊢
+    obtain ⟨hid, _, _, _, p, hfr⟩ := alloc_result s k sz id blk hres
+    have hfr' : (stepAlloc s k sz).1.frames = s.frames ++ [⟨id, blk, sz, p⟩] := hfr
+    have hok2 : (stepFree (stepAlloc s k sz).1 id).1.ok = true := hok
+    have hfind : (stepAlloc s k sz).1.frames.find? (fun g => g.id == id) = some ⟨id, blk, sz, p⟩ := by
+      rw [hfr', List.find?_append]
+      have : s.frames.find? (fun g => g.id == id) = none := by
+        apply List.find?_eq_none.mpr
+        intro g hg
+        have := h.book.fid_lt g hg
+        simp only [beq_iff_eq]; omega
+      simp [this]
+    have hok1 : (stepAlloc s k sz).1.ok = true := by
+      have := step_ok_mono (stepAlloc s k sz).1 (Op.free id) hok2
+      exact this
+    have hi1 : Inv (stepAlloc s k sz).1 := inv_stepAlloc hc h k sz hok1
+    have hi2 : Inv (stepFree (stepAlloc s k sz).1 id).1 := inv_stepFree hi1 id hok2
+    have hnot : (⟨id, blk, sz, p⟩ : Frame) ∉ s.frames := by
+      intro hm; have := h.book.fid_lt _ hm; simp only [] at this; omega
+    have hframes : (stepFree (stepAlloc s k sz).1 id).1.frames = s.frames := by
+      rw [(stepFree_frames hfind).1, hfr', List.erase_append_right _ hnot]
+      simp
+    refine ⟨⟨?_, h.book.born_once, ?_, h.book.inv_last⟩, mem_sameFramesAs hi2.mem⟩
+    · intro f hf
+      have : f ∈ s.frames := by rw [← hframes]; exact hf
+      exact h.book.fid_lt f this
+    · intro i
+      show ((stepFree (stepAlloc s k sz).1 id).1.frames.map (·.id)).count i + s.died.count i = _
+      rw [hframes]; exact h.book.life i
+  | free id => simp only [hres] at hok ⊢; exact inv_stepAlloc hc h k sz hok
+  | obj a b => simp only [hres] at hok ⊢; exact inv_stepAlloc hc h k sz hok
+  | unit => simp only [hres] at hok ⊢; exact inv_stepAlloc hc h k sz hok
+  | rejected => simp only [hres] at hok ⊢; exact inv_stepAlloc hc h k sz hok
+  | bad => simp only [hres] at hok ⊢; exact inv_stepAlloc hc h k sz hok
+
 theorem inv_step {s : State} (hc : CfgOK s.cfg) (h : Inv s) (op : Op) (hok : (step s op).1.ok = true) : Inv (step s op).1 := by
   cases op with
   | alloc k sz => exact inv_stepAlloc hc h k sz hok
